@@ -1196,13 +1196,10 @@ Section Transform.
     - destruct (keeps ctes names mm); cbn [flat_map app g_uJ emit_join]; rewrite ?app_nil_r; reflexivity.
   Qed.
 
-  Definition hdr_ctes (ts : list tok) : list bytes :=
-    if has_sub k_with_sp (lower (untok ts)) then cte_names ts else [].
-
-  Theorem passes_hdr_subst : forall hdr l, wf_segs names l = true ->
-    passes_hdr names hdr (toks l) = toks (subst_segs names (hdr_ctes (toks l)) hdr false l).
+  Theorem passes_hdr_subst : forall word hdr l, wf_segs names l = true ->
+    passes_hdr word names hdr (toks l) = toks (subst_segs names (hdr_ctes word (toks l)) hdr false l).
   Proof.
-    intros hdr l Hwf. unfold passes_hdr. fold (hdr_ctes (toks l)). set (ctes := hdr_ctes (toks l)).
+    intros word hdr l Hwf. unfold passes_hdr. set (ctes := hdr_ctes word (toks l)).
     rewrite (pass_uF names ctes hdr _ Hwf).
     pose proof (wf_flat_map names Hrp _ _ (emitter_uF ctes hdr) Hwf) as Hwf3.
     rewrite (pass_uJ names ctes hdr _ Hwf3).
@@ -1361,10 +1358,10 @@ Section Coverage.
   Lemma plain_dotfree : forall w, plain_name names w = true -> dotfree (rs w).
   Proof. intros w H. apply (plain_name_facts _ _ H). Qed.
 
-  Lemma unkept_cand : forall ctes mm rest, name_ok names None mm rest = true -> keeps ctes names mm = false ->
-    simple_cand names ctes mm rest = Some (db_key k_default (lower (rs mm)), (k_default, rs mm)).
+  Lemma unkept_cand : forall ex ctes mm rest, name_ok names None mm rest = true -> keeps ctes names mm = false ->
+    simple_cand ex names ctes mm rest = Some (db_key k_default (if ex then rs mm else lower (rs mm)), (k_default, rs mm)).
   Proof.
-    intros ctes mm rest Hn Hk. destruct (name_ok_facts _ _ _ _ Hn) as (Hm & _ & Hu). destruct (Hu eq_refl) as (Hdot & Hnext).
+    intros ex ctes mm rest Hn Hk. destruct (name_ok_facts _ _ _ _ Hn) as (Hm & _ & Hu). destruct (Hu eq_refl) as (Hdot & Hnext).
     unfold keeps, on_skip_list in Hk. apply orb_false_elim in Hk. destruct Hk as [Hk H3]. apply orb_false_elim in Hk. destruct Hk as [H1 H2].
     fold ri in H2, H3. rewrite (plain_ri mm Hm) in H2, H3.
     destruct Hnext as [Hok|Hskip]; [|unfold on_skip_list in Hskip; fold ri in Hskip; rewrite (plain_ri mm Hm) in Hskip; congruence].
@@ -1372,24 +1369,25 @@ Section Coverage.
     unfold simple_cand. fold rs. rewrite H3, H2, H1, Hdot, H0. reflexivity.
   Qed.
 
-  Lemma simple_cand_good : forall ctes raw rest k rf, plain_name names raw = true ->
-    simple_cand names ctes raw rest = Some (k, rf) -> good_cand (k, rf).
+  Lemma simple_cand_good : forall ex ctes raw rest k rf, plain_name names raw = true ->
+    simple_cand ex names ctes raw rest = Some (k, rf) -> good_cand (k, rf).
   Proof.
-    intros ctes raw rest k rf Hp H. unfold simple_cand in H.
+    intros ex ctes raw rest k rf Hp H. unfold simple_cand in H.
     destruct (should_skip _); [discriminate|]. destruct (_ || _); [discriminate|].
     destruct (dot_at rest); [discriminate|]. destruct (function_call_at rest); [discriminate|].
-    injection H as <- <-. split; [reflexivity|]. right. reflexivity.
+    injection H as <- <-. split; [reflexivity|]. destruct ex; [left|right]; reflexivity.
   Qed.
   Lemma db_cand_good : forall a b k rf, plain_name names a = true -> db_cand names a b = Some (k, rf) -> good_cand (k, rf).
   Proof. intros a b k rf Ha H. unfold db_cand in H. injection H as <- <-. split; [apply plain_dotfree; exact Ha|left; reflexivity]. Qed.
 
   Variable ctes_e : list bytes.         (* the CTE names of the extractor *)
+  Variable ex : bool.                   (* keys on the name as written (fx_dedup) *)
 
   Definition cands (l : list nseg) : list cand :=
     map (fun x => db_cand names (fst x) (snd x)) (flat_map q_of_from l)
     ++ map (fun x => db_cand names (snd (fst x)) (snd x)) (flat_map q_of_join l)
-    ++ map (fun x => simple_cand names ctes_e (fst x) (snd x)) (u_of_from l)
-    ++ map (fun x => simple_cand names ctes_e (snd (fst x)) (snd x)) (u_of_join l).
+    ++ map (fun x => simple_cand ex names ctes_e (fst x) (snd x)) (u_of_from l)
+    ++ map (fun x => simple_cand ex names ctes_e (snd (fst x)) (snd x)) (u_of_join l).
 
   Lemma wf_tail : forall s r, wf_segs names (s :: r) = true -> wf_segs names r = true.
   Proof. intros s r H. cbn [wf_segs] in H. apply andb_true_iff in H. apply H. Qed.
@@ -1449,9 +1447,9 @@ Section Coverage.
         assert (E : db_cand names d mm = Some (db_key (rs d) (rs mm), (rs d, rs mm))) by reflexivity.
         unfold cands. cbn [flat_map q_of_from q_of_join u_of_from u_of_join]. rewrite ?map_app, !in_app_iff. cbn [map In fst snd]. tauto.
       + destruct (keeps ctes_e names mm) eqn:Hk; [destruct Hin|]. destruct Hin as [<-|[]].
-        exists (db_key k_default (lower (rs mm))), k_default. cbn [fst snd]. fold ri. rewrite (plain_ri mm Hm).
+        exists (db_key k_default (if ex then rs mm else lower (rs mm))), k_default. cbn [fst snd]. fold ri. rewrite (plain_ri mm Hm).
         split; [|right; split; reflexivity].
-        pose proof (unkept_cand ctes_e mm (toks l) Hn Hk) as E.
+        pose proof (unkept_cand ex ctes_e mm (toks l) Hn Hk) as E.
         unfold cands. cbn [flat_map q_of_from q_of_join u_of_from u_of_join]. rewrite ?map_app, !in_app_iff. cbn [map In fst snd]. tauto.
     - destruct db as [d|]; cbn [seg_reads] in Hin.
       + destruct qualified; [|destruct Hin]. destruct Hin as [<-|[]]. cbn [opt_plain] in Hd.
@@ -1460,14 +1458,14 @@ Section Coverage.
         assert (E : db_cand names d mm = Some (db_key (rs d) (rs mm), (rs d, rs mm))) by reflexivity.
         unfold cands. cbn [flat_map q_of_from q_of_join u_of_from u_of_join]. rewrite ?map_app, !in_app_iff. cbn [map In fst snd]. tauto.
       + destruct (keeps ctes_e names mm) eqn:Hk; [destruct Hin|]. destruct Hin as [<-|[]].
-        exists (db_key k_default (lower (rs mm))), k_default. cbn [fst snd]. fold ri. rewrite (plain_ri mm Hm).
+        exists (db_key k_default (if ex then rs mm else lower (rs mm))), k_default. cbn [fst snd]. fold ri. rewrite (plain_ri mm Hm).
         split; [|right; split; reflexivity].
-        pose proof (unkept_cand ctes_e mm (toks l) Hn Hk) as E.
+        pose proof (unkept_cand ex ctes_e mm (toks l) Hn Hk) as E.
         unfold cands. cbn [flat_map q_of_from q_of_join u_of_from u_of_join]. rewrite ?map_app, !in_app_iff. cbn [map In fst snd]. tauto.
   Qed.
 
   Lemma extract_refs_cands : forall l, wf_segs names l = true -> ctes_e = cte_names (toks l) ->
-    extract_refs names (toks l) = snd (add_cands [] (cands l)).
+    extract_refs ex names (toks l) = snd (add_cands [] (cands l)).
   Proof.
     intros l Hwf E. unfold extract_refs, cands. rewrite <- E.
     rewrite (scan_dbF_segs names l Hwf), (scan_dbJ_segs names l Hwf), (scan_sF_segs names l Hwf), (scan_sJ_segs names l Hwf).
@@ -1485,28 +1483,28 @@ Section Coverage.
   Qed.
 End Coverage.
 
-Theorem coverage_nohdr : forall names l, wf_segs names l = true ->
+Theorem coverage_nohdr : forall ex names l, wf_segs names l = true ->
   forall r, In r (rewritten_refs names (cte_names (toks l)) k_default true l) ->
-  covers (extract_refs names (toks l)) r = true.
+  covers (extract_refs ex names (toks l)) r = true.
 Proof.
-  intros names l Hwf r Hin.
-  destruct (read_has_cand names (cte_names (toks l)) _ k_default true l Hwf eq_refl r Hin) as (k & db & Hc & Hdb).
-  rewrite (extract_refs_cands names (cte_names (toks l)) l Hwf eq_refl).
-  destruct (covered_by_cand names _ l Hwf k db (snd r) Hc) as (m' & Hm' & El).
+  intros ex names l Hwf r Hin.
+  destruct (read_has_cand names (cte_names (toks l)) ex _ k_default true l Hwf eq_refl r Hin) as (k & db & Hc & Hdb).
+  rewrite (extract_refs_cands names (cte_names (toks l)) ex l Hwf eq_refl).
+  destruct (covered_by_cand names _ ex l Hwf k db (snd r) Hc) as (m' & Hm' & El).
   unfold covers. apply existsb_exists. exists (db, m'). split; [exact Hm'|]. cbn [fst snd].
   assert (db = fst r) as -> by (destruct Hdb as [[_ ->]|[-> ->]]; reflexivity).
   rewrite bytes_eqb_refl, El, bytes_eqb_refl. reflexivity.
 Qed.
 
-Theorem coverage_hdr : forall names hdr l, wf_segs names l = true -> hdr <> [] ->
-  hdr_ctes (toks l) = cte_names (toks l) ->
-  forall r, In r (rewritten_refs names (hdr_ctes (toks l)) hdr false l) ->
-  covers (override_default hdr (extract_refs names (toks l))) r = true.
+Theorem coverage_hdr : forall ex word names hdr l, wf_segs names l = true -> hdr <> [] ->
+  hdr_ctes word (toks l) = cte_names (toks l) ->
+  forall r, In r (rewritten_refs names (hdr_ctes word (toks l)) hdr false l) ->
+  covers (override_default hdr (extract_refs ex names (toks l))) r = true.
 Proof.
-  intros names hdr l Hwf Hh Ec r Hin. rewrite Ec in Hin.
-  destruct (read_has_cand names (cte_names (toks l)) _ hdr false l Hwf eq_refl r Hin) as (k & db & Hc & Hdb).
-  rewrite (extract_refs_cands names (cte_names (toks l)) l Hwf eq_refl).
-  destruct (covered_by_cand names _ l Hwf k db (snd r) Hc) as (m' & Hm' & El).
+  intros ex word names hdr l Hwf Hh Ec r Hin. rewrite Ec in Hin.
+  destruct (read_has_cand names (cte_names (toks l)) ex _ hdr false l Hwf eq_refl r Hin) as (k & db & Hc & Hdb).
+  rewrite (extract_refs_cands names (cte_names (toks l)) ex l Hwf eq_refl).
+  destruct (covered_by_cand names _ ex l Hwf k db (snd r) Hc) as (m' & Hm' & El).
   destruct Hdb as [[Hq _]|[-> Hr]]; [discriminate|].
   unfold covers. apply existsb_exists. exists (hdr, m'). split.
   - unfold override_default. destruct hdr as [|h0 hdr']; [congruence|].
@@ -1552,51 +1550,56 @@ Proof.
   rewrite (passes_nohdr_subst (req_names s) Hrp _ Hwf). fold (req_segs s). unfold req_segs at 1. rewrite E. reflexivity.
 Qed.
 
-Theorem convert_hdr_subst : forall s hdr, req_in_grammar s = true -> fast_single_ok s = false ->
-  convert_hdr s hdr = restore s (toks (subst_segs (req_names s) (hdr_ctes (req_toks s)) hdr false (req_segs s))).
+Theorem convert_hdr_subst : forall word s hdr, req_in_grammar s = true -> fast_single_ok word s = false ->
+  convert_hdr word s hdr = restore s (toks (subst_segs (req_names s) (hdr_ctes word (req_toks s)) hdr false (req_segs s))).
 Proof.
-  intros s hdr H Hf. destruct (in_grammar_facts _ _ H) as (E & Hwf & Hrp).
+  intros word s hdr H Hf. destruct (in_grammar_facts _ _ H) as (E & Hwf & Hrp).
   unfold convert_hdr, restore. rewrite Hf. cbv zeta. fold (req_names s) (req_toks s).
-  replace (passes_hdr (req_names s) hdr (req_toks s)) with (passes_hdr (req_names s) hdr (toks (segs_of (req_toks s)))) by (rewrite E; reflexivity).
-  rewrite (passes_hdr_subst (req_names s) Hrp hdr _ Hwf). fold (req_segs s). unfold req_segs at 1. rewrite E. reflexivity.
+  replace (passes_hdr word (req_names s) hdr (req_toks s)) with (passes_hdr word (req_names s) hdr (toks (segs_of (req_toks s)))) by (rewrite E; reflexivity).
+  rewrite (passes_hdr_subst (req_names s) Hrp word hdr _ Hwf). fold (req_segs s). unfold req_segs at 1. rewrite E. reflexivity.
 Qed.
 
-Lemma gate_exec_inv : forall s hdr chk rt text, gate s hdr = OExec chk rt text ->
-  chk = override_default hdr (extract_refs (req_names s) (req_toks s)) /\ rt = route_of s /\ text = executed_text s hdr.
+Lemma gate_exec_inv : forall fx s hdr chk rt text, gate_gen fx s hdr = OExec chk rt text ->
+  chk = override_default hdr (extract_refs (fx_dedup fx) (req_names s) (req_toks s))
+  /\ rt = route_of (fx_noraw fx) s /\ text = executed_text fx s hdr.
 Proof.
-  intros s hdr chk rt text H. unfold gate in H.
-  destruct (validate s); [discriminate|].
+  intros fx s hdr chk rt text H. unfold gate_gen in H.
+  destruct (validate fx s); [discriminate|].
   destruct (negb _); [discriminate|]. destruct (_ && _); [discriminate|].
   destruct (show_databases _); [discriminate|]. destruct (show_tables _) as [cap|].
   - destruct (valid_identifier _); discriminate.
   - injection H as <- <- <-. auto.
 Qed.
 
-Theorem gate_transform_nohdr : forall s chk rt text, req_in_grammar s = true ->
-  gate s [] = OExec chk rt text -> rt = Transformed ->
+Theorem gate_transform_nohdr : forall fx s chk rt text, req_in_grammar s = true ->
+  gate_gen fx s [] = OExec chk rt text -> rt = Transformed ->
   text = restore s (toks (subst_segs (req_names s) (cte_names (req_toks s)) k_default true (req_segs s)))
   /\ forall r, In r (rewritten_refs (req_names s) (cte_names (req_toks s)) k_default true (req_segs s)) -> covers chk r = true.
 Proof.
-  intros s chk rt text Hg H Hrt. destruct (gate_exec_inv _ _ _ _ _ H) as (-> & -> & ->).
+  intros fx s chk rt text Hg H Hrt. destruct (gate_exec_inv _ _ _ _ _ _ H) as (-> & -> & ->).
   destruct (in_grammar_facts _ _ Hg) as (E & Hwf & Hrp). split.
   - unfold executed_text. rewrite Hrt. apply convert_nohdr_subst. exact Hg.
   - intros r Hr. cbn [override_default]. rewrite <- E. apply coverage_nohdr; [exact Hwf|]. unfold req_segs in Hr. rewrite E. exact Hr.
 Qed.
 
-Theorem gate_transform_hdr : forall s hdr chk rt text, req_in_grammar s = true -> hdr <> [] ->
-  fast_single_ok s = false -> hdr_ctes (req_toks s) = cte_names (req_toks s) ->
-  gate s hdr = OExec chk rt text -> rt = Transformed ->
-  text = restore s (toks (subst_segs (req_names s) (hdr_ctes (req_toks s)) hdr false (req_segs s)))
-  /\ forall r, In r (rewritten_refs (req_names s) (hdr_ctes (req_toks s)) hdr false (req_segs s)) -> covers chk r = true.
+Theorem gate_transform_hdr : forall fx s hdr chk rt text, req_in_grammar s = true -> hdr <> [] ->
+  fast_single_ok (fx_with fx) s = false -> hdr_ctes (fx_with fx) (req_toks s) = cte_names (req_toks s) ->
+  gate_gen fx s hdr = OExec chk rt text -> rt = Transformed ->
+  text = restore s (toks (subst_segs (req_names s) (hdr_ctes (fx_with fx) (req_toks s)) hdr false (req_segs s)))
+  /\ forall r, In r (rewritten_refs (req_names s) (hdr_ctes (fx_with fx) (req_toks s)) hdr false (req_segs s)) -> covers chk r = true.
 Proof.
-  intros s hdr chk rt text Hg Hh Hf Hc H Hrt. destruct (gate_exec_inv _ _ _ _ _ H) as (-> & -> & ->).
+  intros fx s hdr chk rt text Hg Hh Hf Hc H Hrt. destruct (gate_exec_inv _ _ _ _ _ _ H) as (-> & -> & ->).
   destruct (in_grammar_facts _ _ Hg) as (E & Hwf & Hrp). split.
   - unfold executed_text. rewrite Hrt. destruct hdr as [|h0 hdr']; [congruence|]. apply convert_hdr_subst; assumption.
-  - intros r Hr. rewrite <- E. apply coverage_hdr; try assumption; unfold req_segs in *; rewrite E; assumption.
+  - intros r Hr. rewrite <- E. apply coverage_hdr with (word := fx_with fx); try assumption; unfold req_segs in *; rewrite E; assumption.
 Qed.
 
-Theorem gate_raw_text : forall s hdr chk rt text, gate s hdr = OExec chk rt text -> rt <> Transformed -> text = s.
+Theorem gate_raw_text : forall fx s hdr chk rt text, gate_gen fx s hdr = OExec chk rt text -> rt <> Transformed -> text = s.
 Proof.
-  intros s hdr chk rt text H Hrt. destruct (gate_exec_inv _ _ _ _ _ H) as (_ & -> & ->).
-  unfold executed_text. destruct (route_of s); try reflexivity. congruence.
+  intros fx s hdr chk rt text H Hrt. destruct (gate_exec_inv _ _ _ _ _ _ H) as (_ & -> & ->).
+  unfold executed_text. destruct (route_of (fx_noraw fx) s); try reflexivity. congruence.
 Qed.
+
+(* with the repair of the header converters the hypothesis about the CTE names always holds *)
+Lemma hdr_ctes_same : forall ts, hdr_ctes true ts = cte_names ts.
+Proof. reflexivity. Qed.
